@@ -92,6 +92,7 @@ def finish(res: Result, tier: str, seed: int, t0: float, selftest: Optional[dict
     oks = [i for i in insts if i.verdict == OK]
 
     # floors: each rule must have decided at least the hand-confirmed number of instances
+    soft_errors: List[str] = []
     by_rule: Dict[str, Dict[str, int]] = {}
     for i in insts:
         d = by_rule.setdefault(i.rule, {OK: 0, VIOLATION: 0, UNDECIDED: 0})
@@ -100,7 +101,7 @@ def finish(res: Result, tier: str, seed: int, t0: float, selftest: Optional[dict
         d = by_rule.get(rule, {OK: 0, VIOLATION: 0, UNDECIDED: 0})
         decided = d[OK] + d[VIOLATION]
         if decided < floor:
-            res.error(
+            soft_errors.append(
                 f"rule {rule}: only {decided} instances decided (floor {floor}, undecided {d[UNDECIDED]}) — "
                 "the rule no longer sees the constructs it was confirmed on"
             )
@@ -119,6 +120,13 @@ def finish(res: Result, tier: str, seed: int, t0: float, selftest: Optional[dict
 
     replay_dir = os.path.join(VERIF, "evidence", "replay")
     code = 0
+    # a floor that is not met is an analysis error only when nothing definite was found: a violation is
+    # derived from positive facts and stays valid when other instances became undecided
+    if soft_errors and not new_viol:
+        res.errors.extend(soft_errors)
+    elif soft_errors:
+        for e in soft_errors:
+            print(f"pv:   warning: {e}")
     if res.errors:
         for e in res.errors:
             print(f"ANALYSIS-ERROR property={pid} {e}")
